@@ -78,7 +78,10 @@ func (r *Report) SortWeighted() {
 		if n1.Value.Account.Level() == 1 && n2.Value.Account.Level() == 1 {
 			return compare.Ordered(n1.Value.Account.Type(), n2.Value.Account.Type())
 		}
-		return compare.Decimal(n1.Value.Weight, n2.Value.Weight)
+		if o := compare.Decimal(n1.Value.Weight, n2.Value.Weight); o != compare.Equal {
+			return o
+		}
+		return multimap.SortAlpha(n1, n2)
 	}
 	r.AL.Sort(f)
 	r.EIE.Sort(f)
